@@ -502,4 +502,164 @@ theorem AnnInv.ofFdtDone {s : State} {L : Held} {c : Cur} {f : FileDesc} {now : 
       show Holds _ AnnP (Ev.fdtStop _ _ :: s.log)
       exact ⟨h.holds, trivial⟩ }
 
+theorem AnnInv.ofFileStart {s : State} {L : Held} {prio now t : Nat} (tk : Nat) (hw : Wf s L) (h : AnnInv s L)
+    (hfn : findNext s prio now s.queue = some t) :
+    AnnInv (autoPublish (fileStartStep s t now tk) now)
+      ((prio, startCur (autoPublish (fileStartStep s t now tk) now) t) :: L) := by
+  obtain ⟨pre, post, hq, _, g, hg, hst⟩ := findNext_spec s prio now s.queue t hfn
+  have htq : t ∈ s.queue := by rw [hq]; simp
+  obtain ⟨_, _, hpub, _⟩ := shouldTransferNow_true hst
+  have hkey : ∀ f : FileDesc, (transferInit f now tk).key = f.key := fun _ => rfl
+  -- step 1: the transfer is started (waiting queue, event, transfer_started)
+  have h1 : AnnInv (fileStartStep s t now tk) L :=
+    h.neutral (e := Ev.start now t _ _) trivial rfl rfl rfl rfl rfl rfl rfl
+      (mem_updF_published (fun f => ⟨rfl, rfl⟩)) (fun pc hpc => ⟨pc, hpc, rfl⟩)
+  have hw1 := Wf.fileStartStep tk (startCur (autoPublish (fileStartStep s t now tk) now) t) rfl hw hfn
+  unfold autoPublish at hw1 ⊢
+  cases hmode : (fileStartStep s t now tk).cfg.mode with
+  | full =>
+    simp only []
+    have hmode' : s.cfg.mode = .full := hmode
+    obtain ⟨k, f, hf, hc⟩ := h.pubListed hmode' g (getF_mem hg) (hpub hmode')
+    rw [getF_key hg] at hc
+    exact
+    { h1 with
+      listed := fun pc hpc => by
+        rcases List.mem_cons.mp hpc with rfl | hpc
+        · exact ⟨k, f, hf, hc⟩
+        · exact h1.listed pc hpc }
+  | being =>
+    simp only []
+    have hnew : getF (fileStartStep s t now tk).fdts (fileStartStep s t now tk).fdts.length = none :=
+      hw1.getF_new
+    have h2 := h1.ofPublish now hnew
+    have hnewd : getF (publish (fileStartStep s t now tk) now).fdts (fileStartStep s t now tk).fdts.length
+        = some (pubDesc (fileStartStep s t now tk)) := by
+      rw [publish_getF_fdts, hnew]; simp
+    exact
+    { h2 with
+      listed := fun pc hpc => by
+        rcases List.mem_cons.mp hpc with rfl | hpc
+        · refine ⟨_, _, hnewd, ?_⟩
+          show t ∈ (match (fileStartStep s t now tk).cfg.mode with
+            | .full => (fileStartStep s t now tk).files
+            | .being => (fileStartStep s t now tk).files.filter (isTransferring (fileStartStep s t now tk)))
+          rw [hmode]
+          simp only [List.mem_filter]
+          refine ⟨hw.queueFiles t htq, ?_⟩
+          unfold isTransferring
+          have : getF (fileStartStep s t now tk).objs t = some (transferInit g now tk) := by
+            show getF (updF s.objs t _) t = _
+            rw [getF_updF _ _ _ _ hkey, if_pos rfl, hg]; rfl
+          rw [this]; rfl
+        · exact h2.listed pc hpc }
+
+theorem AnnInv.ofPkt {s : State} {L : Held} {prio : Nat} {c : Cur} (now idx : Nat) (b : Bool) (e : Enc)
+    (hw : Wf s ((prio, c) :: L)) (h : AnnInv s ((prio, c) :: L))
+    (hq : s.quiet = true) (hfq : s.fdtQueue.isEmpty = true) :
+    AnnInv (pktStep s prio c.key now idx b) ((prio, { c with enc := e }) :: L) := by
+  have hsess : s.fdtSess = none := hw.quiet hq
+  have hqe : s.fdtQueue = [] := by simpa using hfq
+  have hdone : ∀ k f, getF s.fdts k = some f → k ∈ (mon s).done := by
+    intro k f hf
+    rcases h.progress k f hf with h1 | h1 | h1
+    · exact h1
+    · rw [hqe] at h1; cases h1
+    · rw [hsess] at h1; simp at h1
+  have hP : AnnP (mon s) c.key := by
+    constructor
+    · obtain ⟨k, f, hf, hc⟩ := h.listed (prio, c) List.mem_cons_self
+      exact ⟨k, f.content, h.fdtPubs k f hf, hc, hdone k f hf⟩
+    · constructor
+      · intro k files hk
+        obtain ⟨f, hf⟩ := h.pubsFdt k files hk
+        exact hdone k f hf
+      · rw [h.cur, hsess]
+  refine h.of_same rfl rfl ⟨h.holds, hP⟩ rfl rfl rfl rfl rfl
+    (mem_updF_published (fun f => ⟨rfl, rfl⟩)) ?_
+  intro pc' hpc'
+  rcases List.mem_cons.mp hpc' with rfl | hpc'
+  · exact ⟨(prio, c), List.mem_cons_self, rfl⟩
+  · exact ⟨pc', List.mem_cons_of_mem _ hpc', rfl⟩
+
+theorem AnnInv.ofDone {s : State} {L : Held} {prio : Nat} {c : Cur} (now : Nat)
+    (h : AnnInv s ((prio, c) :: L)) : AnnInv (transferDoneFile s c.key now) L :=
+  h.neutral (e := Ev.stop now c.key) trivial (transferDoneFile_log s c.key now)
+    (transferDoneFile_fdtPkts s c.key now) (transferDoneFile_fdts s c.key now)
+    (transferDoneFile_fdtQueue s c.key now) (transferDoneFile_curFdt s c.key now)
+    (transferDoneFile_fdtSess s c.key now) (transferDoneFile_cfg s c.key now)
+    (by rw [transferDoneFile_objs]; exact mem_updF_published (fun f => ⟨rfl, rfl⟩))
+    (fun pc hpc => ⟨pc, List.mem_cons_of_mem _ hpc, rfl⟩)
+
+theorem AnnInv.ofEmit {s : State} {L : Held} {e : Ev} (hn : Neutral e) (h : AnnInv s L) : AnnInv (emit s e) L :=
+  h.neutral hn rfl rfl rfl rfl rfl rfl rfl (fun g hg hp => ⟨g, hg, rfl, hp⟩) (fun pc hpc => ⟨pc, hpc, rfl⟩)
+
+theorem AnnInv.closed : Closed Wf AnnInv where
+  perm := fun _ _ _ p h =>
+    h.of_same rfl rfl h.holds rfl rfl rfl rfl rfl (fun g hg hp => ⟨g, hg, rfl, hp⟩)
+      (fun pc hpc => ⟨pc, p.mem_iff.mpr hpc, rfl⟩)
+  leaveFiles := fun _ _ _ h =>
+    h.of_same rfl rfl h.holds rfl rfl rfl rfl rfl (fun g hg hp => ⟨g, hg, rfl, hp⟩) (fun pc hpc => ⟨pc, hpc, rfl⟩)
+  enterFiles := fun _ _ _ _ h _ _ =>
+    h.of_same rfl rfl h.holds rfl rfl rfl rfl rfl (fun g hg hp => ⟨g, hg, rfl, hp⟩) (fun pc hpc => ⟨pc, hpc, rfl⟩)
+  emitRead := fun _ _ _ _ h _ => h.ofEmit trivial
+  emitIdle := fun _ _ _ _ h _ => h.ofEmit trivial
+  publish := fun _ _ now hw h => h.ofPublish now hw.getF_new
+  fdtAdvance := fun _ _ now hw h _ hs => h.ofFdtAdvance now hw hs
+  fileStart := fun _ _ _ _ tk _ hw h _ hfn => h.ofFileStart tk hw hfn
+  pkt := fun _ _ _ _ now _ idx b e hw h hq _ hfq _ _ => h.ofPkt now idx b e hw hq hfq
+  done := fun _ _ _ _ now _ _ _ h _ _ _ _ _ => h.ofDone now
+  fdtPkt := fun _ _ _ _ _ _ _ _ hw h _ hc hf _ he => h.ofFdtPkt hw hc hf he
+  fdtDone := fun _ _ _ _ _ _ hw h _ hc hf _ he => h.ofFdtDone hw hc hf he
+
+theorem AnnInv.closedOps : ClosedOps Wf AnnInv where
+  add := fun s _ a _ h => by
+    unfold addObject
+    simp only []
+    have hfail : ∀ e : Ev, Neutral e → AnnInv (emit { s with nextToi := s.nextToi + 1 } e) _ := fun e hn =>
+      h.neutral hn rfl rfl rfl rfl rfl rfl rfl (fun g hg hp => ⟨g, hg, rfl, hp⟩) (fun pc hpc => ⟨pc, hpc, rfl⟩)
+    split
+    · exact hfail _ trivial
+    · split
+      · exact hfail _ trivial
+      · refine h.neutral (e := Ev.opAdd s.nextToi a true) trivial rfl rfl rfl rfl rfl rfl rfl ?_
+          (fun pc hpc => ⟨pc, hpc, rfl⟩)
+        intro g hg hp
+        rcases List.mem_append.mp hg with hg | hg
+        · exact ⟨g, hg, rfl, hp⟩
+        · simp only [List.mem_singleton] at hg; subst hg; cases hp
+  remove := fun s _ t _ h => by
+    unfold removeObject
+    split
+    · exact h.ofEmit trivial
+    · exact h.neutral (e := Ev.opRemove t true) trivial rfl rfl rfl rfl rfl rfl rfl
+        (fun g hg hp => ⟨g, hg, rfl, hp⟩) (fun pc hpc => ⟨pc, hpc, rfl⟩)
+  trigger := fun s _ t ts _ h => by
+    unfold triggerTransferAt
+    split
+    · exact h.ofEmit trivial
+    · split
+      · exact h.ofEmit trivial
+      · exact h.neutral (e := Ev.opTrigger t ts true) trivial rfl rfl rfl rfl rfl rfl rfl
+          (mem_updF_published (fun f => ⟨rfl, rfl⟩)) (fun pc hpc => ⟨pc, hpc, rfl⟩)
+  emitPublish := fun _ _ _ _ h => h.ofEmit trivial
+  complete := fun _ _ _ h =>
+    h.of_same rfl rfl h.holds rfl rfl rfl rfl rfl (fun g hg hp => ⟨g, hg, rfl, hp⟩) (fun pc hpc => ⟨pc, hpc, rfl⟩)
+
+theorem AnnInv.init (cfg : Cfg) (tbl : List Nat) : AnnInv (Sched.init cfg tbl) [] where
+  pubsFdt := fun k files hk => by simp [mon, Sched.init, Mon.run] at hk
+  fdtPubs := fun k f hf => by simp [Sched.init, getF] at hf
+  progress := fun k f hf => by simp [Sched.init, getF] at hf
+  cur := rfl
+  sessDone := fun c hc => by simp [Sched.init] at hc
+  listed := fun pc hpc => by simp at hpc
+  pubListed := fun _ g hg => by simp [Sched.init] at hg
+  holds := trivial
+
+/-- `Wf ∧ AnnInv` after every operation history -/
+theorem ann_run (cfg : Cfg) (tbl : List Nat) (ops : List Op) :
+    And2 Wf AnnInv (run (Sched.init cfg tbl) ops) (heldOf (run (Sched.init cfg tbl) ops)) :=
+  inv_run (Closed.and Wf.closed AnnInv.closed) (ClosedOps.and Wf.closedOps AnnInv.closedOps) cfg tbl
+    ⟨Wf.init cfg tbl, AnnInv.init cfg tbl⟩ ops
+
 end Flute.Sched
